@@ -227,7 +227,7 @@ pub fn run(args: Args) {
     );
     run.assume("/repo/rlm_kanidm/module/src/{logic,error}.rs are compiled into the harness by #[path]; the FreeRADIUS FFI wrapper (ffi.rs) that copies AuthResponse into the reply is not exercised");
     run.assume("VLAN mappings are keyed by group spn (config field `spn`); cases where a mapping key equals a group's uuid are not judged for VLAN");
-    let configs: u64 = args.tier.pick(1_500, 40_000);
+    let configs: u64 = args.tier.pick(1_500, 30_000);
     let per_cfg: u64 = 12;
     // replay: the witness is self-contained (inputs, conversation, result, explanation); show it, then
     // re-derive the verdict by running the same seed/tier it was found under
